@@ -490,6 +490,50 @@ def job_pipes(args):
     return rep
 
 
+# ------------------------------------------------------------------ several injections into one function
+def job_stacked(_arg):
+    """Every pair (and triple) of injections stacked on one function - injected task in {A, B}, key in {result, other}, positional
+    or keyword - executed: each parameter must receive the requested key of the requested task (the same task may be injected
+    several times with different keys)."""
+    from valjean.cosette.use import Use
+    rep = Report()
+
+    def func(*args, **kwargs):
+        return (args, tuple(sorted(kwargs.items())))
+
+    single = [(t, k, kw) for t in ('A', 'B') for k in ('result', 'other') for kw in (None, 'kw')]
+    for depth in (2, 3):
+        for combo in itertools.product(single, repeat=depth):
+            if depth == 3 and combo[0][0] != 'A':
+                continue                                # by symmetry of the task names
+            Use._CACHE.clear()  # pylint: disable=protected-access
+            env, tasks = env_and_tasks()
+            case = {'injections (task, key, keyword?) innermost first': [list(c) for c in combo]}
+            names = [None if kw is None else f'p{i}' for i, (_, _, kw) in enumerate(combo)]
+            try:
+                use = func
+                for (tname, key, _), kwarg in zip(combo, names):
+                    use = Use.from_func(func=use, task=tasks[tname], key=key, kwarg=kwarg)
+                task = use.get_task()
+                got = run_use_task(task, env, None)
+            except Exception as exc:  # pylint: disable=broad-except
+                rep.violate(f'C15|stacked|raises|{type(exc).__name__}', f'{combo}: {exc!r}', case, size=depth)
+                continue
+            same_task = len({c[0] for c in combo}) < len(combo)
+            rep.case(nontrivial=repr(combo) if same_task else None, outcome=('stacked', depth, same_task))
+            exp_kw = tuple(sorted((kwarg, env[tname][key]) for (tname, key, _), kwarg in zip(combo, names) if kwarg))
+            exp_pos = sorted(env[tname][key] for (tname, key, _), kwarg in zip(combo, names) if not kwarg)
+            if got[1] != exp_kw or sorted(got[0]) != exp_pos:
+                how = 'same-task-twice' if same_task else 'distinct-tasks'
+                rep.violate(f'C15|stacked|wrong-arguments|{how}', f'injections {combo}: the function received positional {got[0]} / keywords {got[1]}, '
+                            f'requested positional {exp_pos} (any order) / keywords {exp_kw}', case, size=depth)
+            want = {c[0] for c in combo}
+            if {d.name for d in task.depends_on} != want:
+                rep.violate('C15|stacked|wrong-dependencies', f'injections {combo}: depends on {[d.name for d in task.depends_on]}', case, size=depth)
+    rep.sample({'injections (task, key, keyword?) innermost first': [['A', 'result', None], ['A', 'other', 'kw']]})
+    return rep
+
+
 # ------------------------------------------------------------------ statistics helpers and collect
 def job_misc(_arg):
     from valjean.cosette.use import Use
@@ -564,6 +608,7 @@ def run(tier, seed):
     jobs = [(job_use, (depth, first)) for first in USE_REQS]
     jobs += [(job_factory, (depth, first)) for first in FAC_REQS]
     jobs.append((job_misc, None))
+    jobs.append((job_stacked, None))
     jobs += [(job_pipes, (first,)) for first in PIPE_REQS]
     rep = pool.pmap(_call, jobs, seed)
     rep.extra['history_length'] = depth + 1
